@@ -16,8 +16,9 @@ CHECK = dict(
                 "is exactly the sample points lying on an input edge. A ring crossing is reported only if all four endpoints are farther than that "
                 "margin from the other edge's line. The design's threshold hook (kEdgePairBvhThreshold=0) is not available, so the BVH broad phase "
                 "is reached only by the comb scenes; the PAR-build merges (tbb::combinable) are not covered here."),
-    runs=[S("seq-fast", quick=240, thorough=2400, workers=8),
-          S("seq-asan", quick=300, thorough=300, workers=8, args=["--asan-subset"])],
+    # budgets are deadlines with ample slack for a shared machine (quiet machine: seq-fast quick ~55 s, thorough ~12 min; seq-asan ~60 s)
+    runs=[S("seq-fast", quick=400, thorough=3000, workers=8),
+          S("seq-asan", quick=600, thorough=900, workers=8, args=["--asan-subset"])],
     rule=("contour1: all 16^3+16^4+16^5 vertex sequences x {Positive, EvenOdd}; distinct = distinct output ring sets; non-trivial = non-empty "
           "output from a contour that is not a simple counter-clockwise polygon. tri-bool: 516^2 ordered operand pairs x 3 ops (+ swapped "
           "commutative re-runs); non-trivial = pairs whose operands properly overlap (A^B, A-B and B-A all non-empty at the samples). rect-*: mixed-radix enumeration of the stated programs; "
